@@ -37,6 +37,8 @@ def gen_cases(tier, seed):
         o = S.base_options(rng, adaptive=adaptive, steps=(10 if tier == "quick" else 25) if scr else 40, screening=scr)
         if not adaptive:
             o["auto_dt"] = {"steps": 40, "frac": 0.3, "exact": True}
+            if k % 4 == 2:
+                o["auto_dt"]["therm_steps"] = 13  # thermalised: frame 0 holds the state left by 13 unrecorded steps (no multiple of any save interval used)
         drive = {"A": S.field_spec(rng, dev, o, ["uniform", "ramp", "osc", "uniform"][k % 4], b=0.25),
                  "currents": S.current_spec(rng, dev, o, ["const", "callable"][k % 2] if nt else "none", strength=0.15),
                  "epsilon": {"kind": ["one", "spatial", "time"][k % 3]}}
@@ -55,6 +57,21 @@ def gen_cases(tier, seed):
                  "currents": S.current_spec(rng, dev, o | {"solve_time": 1.0}, "const" if nt else "none", strength=0.15)}
         splits = list(range(1, N)) if tier == "thorough" else sorted(set(int(x) for x in rng.choice(np.arange(1, N), size=min(4 if not scr else 2, N - 1), replace=False)))
         cases.append({"kind": "resume", "device": dev, "options": o, "drive": drive, "N": N, "dt": dt, "splits": splits, "terminal_psi": [0.0, "none"][k % 2], "cost": 60 if scr else 15})
+    # drives that CHANGE during the first part and are constant from before the first split point on: the solver of the
+    # uninterrupted run has a history (refreshed link variables, remembered boundary currents), the solver of the resumed run
+    # has none; the continuation is stated as the static drive and as the same time-dependent object shifted by T1
+    rng2 = np.random.default_rng(11_500 + seed)
+    for k in range(2 if tier == "quick" else 8):
+        variant = ["ramp_hold", "softstart"][k % 2]
+        nt = 2 if variant == "softstart" else int([0, 2][(k // 2) % 2])
+        dev = zoo.gen_device(rng2, n_terminals=nt, n_holes=int(nt == 0), probes=2 if nt else 0, size="tiny", smooth=0)
+        N = 16
+        o = dict(dt_init=2e-3, dt_max=0.1, adaptive=False, save_every=1, field_units="mT", current_units="uA", output="file")
+        drive = {"A": S.field_spec(rng2, dev, o | {"solve_time": 1.0}, "uniform", b=0.25),
+                 "currents": S.current_spec(rng2, dev, o | {"solve_time": 1.0}, "const" if nt else "none", strength=0.15)}
+        splits = [11, 12, 14] if tier == "quick" else [11, 12, 13, 14, 15]
+        cases.append({"kind": "resume", "variant": variant, "device": dev, "options": o, "drive": drive, "N": N, "dt": 2e-3, "splits": splits,
+                      "terminal_psi": [0.0, "none"][(k // 2) % 2], "cost": 20})
     return cases
 
 
@@ -221,10 +238,29 @@ def case_resume(spec):
     N, dt = spec["N"], spec["dt"]
     V, C = [], {"resume_splits": 0, "resume_frame_comparisons": 0}
 
-    def run(nsteps, seed_solution=None):
+    variant = spec.get("variant")
+    if variant:
+        # one step for all runs of the case, taken once from the mesh (no per-run rescaling of the drive's times: the first
+        # part must be the uninterrupted run bit for bit)
+        from .. import stability
+
+        dt = 0.3 * stability.dt_star(dev)
+
+    def run(nsteps, seed_solution=None, t_shift=None, static=False):
         sp = copy.deepcopy(spec)
-        sp["options"]["auto_dt"] = {"steps": nsteps, "frac": 0.3, "exact": True}
-        sp["options"]["solve_time"] = nsteps * dt - dt / 2
+        if variant:
+            sp["options"].update(dt_init=dt, dt_max=max(0.1, dt), solve_time=nsteps * dt - dt / 2)
+            A, cur = sp["drive"]["A"], sp["drive"]["currents"]
+            t0 = 0.0 if t_shift is None else t_shift
+            if variant == "ramp_hold" and not static:
+                # ramped up during the first 3.5 steps, held afterwards
+                sp["drive"]["A"] = {"kind": "ramp", "B": A["B"], "tmin": 0.0 - t0, "tmax": 3.5 * dt - t0}
+            if variant == "softstart" and not static:
+                # soft start I0 tanh(t / tau), tau = dt / 2: increments below 1e-5 I0 from step 4 on, exactly I0 from step 10 on
+                sp["drive"]["currents"] = {"kind": "softstart", "values": cur["values"], "tau": 0.5 * dt, "t0": t0}
+        else:
+            sp["options"]["auto_dt"] = {"steps": nsteps, "frac": 0.3, "exact": True}
+            sp["options"]["solve_time"] = nsteps * dt - dt / 2
         sp["options"]["terminal_psi"] = spec["terminal_psi"]
         tm = simmon.TraceMonitor()
         rr = sim.run_sim(sp, [tm], device=dev, seed_solution=seed_solution, keep_dir=True)
@@ -251,7 +287,15 @@ def case_resume(spec):
         if seen != seed_before:
             V.append({"kind": "looking_at_a_solution_changes_it", "mechanism": "observation_mutates_solution", "detail": {"N": N, "N1": N1, "fields": [f for f in seed_before if seed_before[f] != seen[f]]}})
             seed_before = seen
-        rr2, tm2 = run(N - N1, seed_solution=seed)
+        if variant:
+            # the same drive from the split point on: alternately the static value and the time-dependent object shifted by T1
+            form = ["static", "shifted"][C["resume_splits"] % 2] if len(spec["splits"]) > 1 else "shifted"
+            if C["resume_splits"] == len(spec["splits"]) - 1 and len(spec["splits"]) % 2 == 1:
+                form = "shifted"
+            rr2, tm2 = run(N - N1, seed_solution=seed, t_shift=N1 * dt, static=(form == "static"))
+            C["continuations_" + form] = C.get("continuations_" + form, 0) + 1
+        else:
+            rr2, tm2 = run(N - N1, seed_solution=seed)
         C["resume_splits"] += 1
         seed_after = {f: simmon.h(np.asarray(getattr(seed.tdgl_data, f))) for f in seed_before}
         if seed_after != seed_before:
@@ -277,7 +321,7 @@ def case_resume(spec):
         if len(V) > 6:
             break
     shutil.rmtree(rr0.outdir, ignore_errors=True)
-    return {"violations": V[:6], "counters": C, "classes": ["resume", "screening=" + str(bool(spec["options"].get("include_screening"))), "terminal_psi=" + str(spec["terminal_psi"])],
+    return {"violations": V[:6], "counters": C, "classes": ["resume", "screening=" + str(bool(spec["options"].get("include_screening"))), "terminal_psi=" + str(spec["terminal_psi"]), "drive_before_split=" + str(variant or "static")],
             "nontrivial": C["resume_splits"] >= 1 and C["resume_frame_comparisons"] >= 5,
             "sample": {"N": N, "splits": spec["splits"], "frames_compared": C["resume_frame_comparisons"]}}
 
